@@ -181,6 +181,44 @@ func (q Seq) Expand() []bool {
 		for i := range out {
 			out[i] = math.Cos(2*math.Pi*float64(q.A)*float64(i)/float64(n)+q.F) >= 0
 		}
+	case "blocklr": // blocks of length A; each block's longest run of ones is exactly L, L drawn in [B-1, B+Pos[0]+1]; Pos[1]=1 complements
+		m, lo, K := q.A, q.B, q.Pos[0]
+		for s := 0; s < n; s += m {
+			e := min(s+m, n)
+			blk := out[s:e]
+			L := lo - 1 + r.Intn(K+3)
+			L = max(0, min(L, len(blk)))
+			run := 0
+			for i := range blk {
+				b := r.Uint64()&1 == 1
+				if b && run+1 >= L {
+					b = false
+				}
+				blk[i] = b
+				if b {
+					run++
+				} else {
+					run = 0
+				}
+			}
+			if L > 0 {
+				p := r.Intn(len(blk) - L + 1)
+				for i := p; i < p+L; i++ {
+					blk[i] = true
+				}
+				if p > 0 {
+					blk[p-1] = false
+				}
+				if p+L < len(blk) {
+					blk[p+L] = false
+				}
+			}
+		}
+		if len(q.Pos) > 1 && q.Pos[1] == 1 {
+			for i := range out {
+				out[i] = !out[i]
+			}
+		}
 	case "balanced": // exactly n/2 ones, shuffled
 		for i := range out {
 			out[i] = i < n/2
